@@ -1,0 +1,47 @@
+//go:build verif
+
+package httpclient
+
+// Contracts for govc (contract-based deductive verification). Comment-only: this file
+// contributes no declarations and is compiled only with -tags verif.
+
+// ---- HTTP provider (C12, C04): the allow-listed operations (Get, Post, Put, Patch, Delete) return
+// ---- for every argument the reflective dispatcher can hand them (null, a number, an object
+// ---- without url, nested junk) and for every response the remote end sends - no index, nil,
+// ---- nil-map or type-assertion panic in this package's code (strict). net/http and net/url are
+// ---- trusted to behave as documented (std.spec).
+//@ func NewHandler
+//@   strict
+//@   ensures result != nil && result.client != nil
+//@ func NewHandlerWithTimeout
+//@   strict
+//@   ensures result != nil && result.client != nil
+//@ func validateURL
+//@   strict
+//@ func parseRequestArgs
+//@   strict
+//@   ensures result2 == nil ==> result1 != nil
+//@   loop 1 invariant opts != nil && opts.Headers != nil
+//@   loop 2 invariant opts != nil && opts.Query != nil
+//@ func (*Handler).Get
+//@   strict
+//@   requires h != nil && h.client != nil
+//@ func (*Handler).Post
+//@   strict
+//@   requires h != nil && h.client != nil
+//@ func (*Handler).Put
+//@   strict
+//@   requires h != nil && h.client != nil
+//@ func (*Handler).Patch
+//@   strict
+//@   requires h != nil && h.client != nil
+//@ func (*Handler).Delete
+//@   strict
+//@   requires h != nil && h.client != nil
+//@ func (*Handler).doRequest
+//@   strict
+//@   requires h != nil && h.client != nil && opts != nil
+//@   loop 1 invariant u != nil && q != nil && opts != nil
+//@   loop 2 invariant req != nil && req.Header != nil && opts != nil
+//@   loop 3 invariant respHeaders != nil && resp != nil
+//@   loop 4 invariant respHeaders != nil && resp != nil && 0 <= rangeidx && len(iface) == len(vals)
